@@ -298,6 +298,10 @@ def evaluate(case, rec):
         if s1 is None:
             # the base input is accepted: adding an element that 'changes nothing' must not make the run fail
             r1 = sim.run_params(gen.merge(base_params, extra), want_report=False)
+            if r1.ok or (r1.exc or {}).get('type') == 'RunTimeout':
+                # not reproducible / the harness-side hang guard fired (machine load): inconclusive
+                rec.case(case, nontrivial=False, labels=labels + ['inconclusive_neutral_rerun'])
+                return
             rec.case(case, nontrivial=True, labels=labels + ['neutral:' + which], key=[params, rel, which])
             bad('neutral_element_breaks_run', {'neutral': which, 'error': r1.exc}, neutral=which)
             return
